@@ -1199,8 +1199,11 @@ impl<'ast> LoweringContext<'ast> {
                             if !self.attr_validator.attrs_supported().option {
                                 self.errors.push(LoweringError::Other("Options of structs/enums/primitives not supported by this backend".into()));
                             }
+                            // Not `in_result_option`: only the payload of a *returned* `Option`/`Result`
+                            // may be zero-sized (it is then simply absent); a nested `DiplomatOption<Zst>`
+                            // would need an `_option` struct around an empty struct, which C does not have.
                             let inner =
-                                self.lower_out_type(opt_ty, ltl, in_path, in_struct, true)?;
+                                self.lower_out_type(opt_ty, ltl, in_path, in_struct, false)?;
                             Ok(Type::DiplomatOption(Box::new(inner)))
                         }
                     }
